@@ -148,7 +148,9 @@ package consensus
 //@ func (*neoBlock).GetHashData
 //@   recvname b
 //@   loops 0
-//@   modifies gEncoded
+//@   modifies gEncoded, gHashData
+//@   ghost gHashData = result
+//@   ensures [C19] @recordsWhatItHandsOut sametable(gHashData, result)
 // what is encoded is this block's own header, not a copy that was changed on the way
 //@   at call *.EncodeBinary: assert [C19] @ownHeader recv.ConsensusData == b.base.ConsensusData && recv.Index == b.base.Index && recv.Timestamp == b.base.Timestamp && recv.Version == b.base.Version && recv.MerkleRoot == b.base.MerkleRoot && recv.PrevHash == b.base.PrevHash && recv.NextConsensus == b.base.NextConsensus
 //@   ensures [C19] @headerOnly gEncoded == old(gEncoded) + 1
@@ -157,7 +159,9 @@ package consensus
 //@ func (*amevBlock).GetHashData
 //@   recvname b
 //@   loops 0
-//@   modifies gEncoded
+//@   modifies gEncoded, gHashData
+//@   ghost gHashData = result
+//@   ensures [C19] @recordsWhatItHandsOut sametable(gHashData, result)
 // what is encoded is this block's own header, not a copy that was changed on the way
 //@   at call *.EncodeBinary: assert [C19] @ownHeader recv.ConsensusData == b.base.ConsensusData && recv.Index == b.base.Index && recv.Timestamp == b.base.Timestamp && recv.Version == b.base.Version && recv.MerkleRoot == b.base.MerkleRoot && recv.PrevHash == b.base.PrevHash && recv.NextConsensus == b.base.NextConsensus
 //@   ensures [C19] @headerOnly gEncoded == old(gEncoded) + 1
@@ -242,8 +246,9 @@ package consensus
 //@   loops 0
 //@   requires p.hash == nil
 //@   ensures [C19] @noStaleHash p.hash == nil
-// the bytes the last MarshalUnsigned handed out
+// the bytes the last MarshalUnsigned / GetHashData handed out
 //@ ghost gMarshalled IntSeq
+//@ ghost gHashData IntSeq
 //@ func (*Payload).Hash
 //@   recvname p
 //@   loops 0
@@ -468,19 +473,21 @@ package consensus
 //@   params key
 //@   loops 0
 //@   requires key != nil
-//@   modifies gEncoded, heap neoBlock.signature
+//@   modifies gEncoded, heap neoBlock.signature, gHashData
 //@ func (*neoBlock).Verify
 //@   recvname b
 //@   params pub, sign
 //@   loops 0
 //@   requires pub != nil && len(sign) >= 64
-//@   modifies gEncoded, gVerifies, gVerOK
+//@   modifies gEncoded, gVerifies, gVerOK, gHashData
 // a signature is accepted only if the key's own check of this block's hash data accepted it
 //@   ensures [C19] @onlyByKey implies(result == nil, gVerifies == old(gVerifies) + 1 && gVerOK)
 //@ func (*neoBlock).Hash
 //@   recvname b
 //@   loops 0
-//@   modifies gEncoded, gHashed, gLastHash, heap neoBlock.hash, heap box.*
+//@   modifies gEncoded, gHashed, gLastHash, heap neoBlock.hash, heap box.*, gHashData
+// what is hashed is exactly the bytes GetHashData handed out (the header's encoding) - nothing appended, nothing cut
+//@   at call *.Hash256: assert [C19,C17] @exactlyTheHashData sametable(arg0, gHashData)
 //@   ensures [C19] @cachedOnce implies(old(b.hash) != nil, b.hash == old(b.hash) && result == *old(b.hash))
 // a block whose transactions were set (an empty list included) is hashed: one hash over one encoded value, the header
 //@   ensures [C19] @hashedFromHeader implies(old(b.hash) == nil && !isnil(b.transactions), gHashed == old(gHashed) + 1 && gEncoded == old(gEncoded) + 1 && result == gLastHash && b.hash != nil && *b.hash == result)
@@ -499,19 +506,21 @@ package consensus
 //@   params key
 //@   loops 0
 //@   requires key != nil
-//@   modifies gEncoded, heap amevBlock.signature
+//@   modifies gEncoded, heap amevBlock.signature, gHashData
 //@ func (*amevBlock).Verify
 //@   recvname b
 //@   params pub, sign
 //@   loops 0
 //@   requires pub != nil && len(sign) >= 64
-//@   modifies gEncoded, gVerifies, gVerOK
+//@   modifies gEncoded, gVerifies, gVerOK, gHashData
 // a signature is accepted only if the key's own check of this block's hash data accepted it
 //@   ensures [C19] @onlyByKey implies(result == nil, gVerifies == old(gVerifies) + 1 && gVerOK)
 //@ func (*amevBlock).Hash
 //@   recvname b
 //@   loops 0
-//@   modifies gEncoded, gHashed, gLastHash, heap amevBlock.hash, heap box.*
+//@   modifies gEncoded, gHashed, gLastHash, heap amevBlock.hash, heap box.*, gHashData
+// what is hashed is exactly the bytes GetHashData handed out (the header's encoding) - nothing appended, nothing cut
+//@   at call *.Hash256: assert [C19,C17] @exactlyTheHashData sametable(arg0, gHashData)
 //@   ensures [C19] @cachedOnce implies(old(b.hash) != nil, b.hash == old(b.hash) && result == *old(b.hash))
 // a block whose transactions were set (an empty list included) is hashed: one hash over one encoded value, the header
 //@   ensures [C19] @hashedFromHeader implies(old(b.hash) == nil && !isnil(b.transactions), gHashed == old(gHashed) + 1 && gEncoded == old(gEncoded) + 1 && result == gLastHash && b.hash != nil && *b.hash == result)
